@@ -33,10 +33,24 @@ package protocol
 //@   ensures old(len(src) == 0 || src[0] != '/') ==> len(r) == len(dst) + 1 && r[len(dst)] == '/'
 //@   ensures !old(len(src) == 0 || src[0] != '/') ==> len(r) == len(dst)
 
+// C07 (what "percent-decoding once" is, token by token, left to right): at a '%' followed by two hex digits one
+// byte - their value - is produced and the scan resumes three bytes on; at any other '%' (malformed escape) a literal
+// '%' is produced and the scan resumes at the very next byte (so an escape that follows directly is still decoded);
+// a '%' with fewer than two bytes behind it ends the scan with the rest copied; every other byte is copied.
+// dNext: where the scan has to stand when the loop is entered again.
+//@ ghost var dNext int scratch
 //@ func decodeArgAppendNoPlus(dst, src) r
 //@   props C07, C03, C17
 //@   alias dst
-//@   modifies spare(dst), qk
+//@   modifies spare(dst), qk, dNext
+//@   ghostset-at-entry dNext = 0
+//@   assert @C07 before append#1: src[i] == '%' && i + 2 >= len(src) && sameSlice(arg1, src[i:])
+//@   assert @C07 before append#2: len(arg1) == 1 && arg1[0] == '%' && src[i] == '%' && (bytesconv.Hex2intTable[src[i+1]] == 16 || bytesconv.Hex2intTable[src[i+2]] == 16)
+//@   ghostset before append#2: dNext = i + 1
+//@   assert @C07 before append#3: len(arg1) == 1 && src[i] == '%' && bytesconv.Hex2intTable[src[i+1]] < 16 && bytesconv.Hex2intTable[src[i+2]] < 16 && arg1[0] == bytesconv.Hex2intTable[src[i+1]] * 16 + bytesconv.Hex2intTable[src[i+2]]
+//@   ghostset before append#3: dNext = i + 3
+//@   assert @C07 before append#4: len(arg1) == 1 && arg1[0] == src[i] && src[i] != '%'
+//@   ghostset before append#4: dNext = i + 1
 //@   frame-prop C03
 //@   replay-import github.com/cloudwego/hertz/internal/bytesconv
 //@   replay-go al := []byte{'%', '+', ' ', 'A', '0', '/', 0xff, 0, '*', '?', 'a', 'G'}; var rec func(x []byte, d int); rec = func(x []byte, d int) { r := verifPathRoundTrip(x); if !bytes.Equal(r, x) { fmt.Printf("VCGO-VIOLATED decodeArgAppendNoPlus(AppendQuotedPath(%q)=%q) = %q\n", x, bytesconv.AppendQuotedPath(nil, x), r); panic("stop") }; if d == 0 { return }; for _, c := range al { rec(append(append([]byte{}, x...), c), d-1) } }; rec(nil, 4)
@@ -70,6 +84,7 @@ package protocol
 //@   ensures @C17 qok ==> len(r) == len(dst) + qn && forallT(k, 0, qn, qx[k], r[len(dst) + k] == qx[k])
 //@   loop 0:
 //@     invariant 0 <= i && i <= len(src)
+//@     invariant @C07 i == dNext
 //@     invariant extends(dst, old(dst)) && spareOnly(old(dst))
 //@     invariant i == 0 ==> len(dst) == len(old(dst)) && (len(src) > 0 ==> src[0] == old(src[0]))
 //@     invariant i > 0 && old(src[0]) != '%' ==> len(dst) > len(old(dst)) && dst[len(old(dst))] == old(src[0])
